@@ -10,6 +10,13 @@ Inductive eigfam :=
 | EXXPow | EYYPow | EZZPow | ECCZPow | ECCXPow | ECCYPow | EX4Pow | EZ4Pow
 | EPI (p0 : nat) (inv0 : bool) (p1 : nat) (inv1 : bool).
 
+Fixpoint list_eqb_nat (a b : list nat) : bool :=
+  match a, b with
+  | [], [] => true
+  | x :: a', y :: b' => Nat.eqb x y && list_eqb_nat a' b'
+  | _, _ => false
+  end.
+
 Section Families.
   Context {K : Type} (O : Ops K).
 
@@ -28,7 +35,9 @@ Section Families.
   | GMat (dims : list nat) (m : matrix (K:=K))
   | GIdentity (dims : list nat)
   | GPerm (perm : list nat)                (* QubitPermutationGate: qubit i is sent to perm[i] *)
-  | GGPI (p pc : K) | GGPI2 (p pc : K) | GIonqMS (a ac b bc r rc : K) | GIonqZZ (r rc : K).
+  | GGPI (p pc : K) | GGPI2 (p pc : K) | GIonqMS (a ac b bc r rc : K) | GIonqZZ (r rc : K)
+  (* ControlledGate: control qid shape, the expanded set of activating control tuples, sub-gate *)
+  | GCtrl (cdims : list nat) (cvals : list (list nat)) (sub : gate).
 
   Definition pi_tbl (p0 : nat) (i0 : bool) (p1 : nat) (i1 : bool) : list (Z * matrix (K:=K)) :=
     match p0, i0, p1, i1 with
@@ -87,7 +96,14 @@ Section Families.
     let sh := repeat 2 (length perm) in
     spec_BasisPerm O (size sh) (fun j => index sh (perm_digits perm (nth j (enum sh) []))).
 
-  Definition gate_dims (g : gate) : list nat :=
+  (* block matrix: the sub-gate's matrix on the control tuples in cvals, identity on the others *)
+  Definition ctrl_matrix (cdims : list nat) (cvals : list (list nat)) (m : matrix (K:=K)) : matrix :=
+    let n := length m in
+    fold_right (fun c acc =>
+                  mdirect O (if existsb (fun v => list_eqb_nat v c) cvals then m else mid O n) acc)
+               [] (enum cdims).
+
+  Fixpoint gate_dims (g : gate) : list nat :=
     match g with
     | GEig f _ _ _ => eig_dims f
     | GFSim _ _ _ _ | GPhasedFSim _ _ _ _ _ _ _ _ _ _ | GPhasedISwap _ _ _ _ _ | GIonqMS _ _ _ _ _ _ | GIonqZZ _ _ => [2; 2]
@@ -99,9 +115,10 @@ Section Families.
     | GMat dims _ => dims
     | GIdentity dims => dims
     | GPerm perm => repeat 2 (length perm)
+    | GCtrl cdims _ sub => cdims ++ gate_dims sub
     end.
 
-  Definition gate_spec (g : gate) : matrix :=
+  Fixpoint gate_spec (g : gate) : matrix :=
     match g with
     | GEig f r rc gg => eig_spec f r rc gg
     | GFSim u uc v vc => spec_FSim O u uc v vc
@@ -121,11 +138,13 @@ Section Families.
     | GGPI2 p pc => spec_GPI2 O p pc
     | GIonqMS a ac b bc r rc => spec_IonqMS O a ac b bc r rc
     | GIonqZZ r rc => spec_IonqZZ O r rc
+    | GCtrl cdims cvals sub => ctrl_matrix cdims cvals (gate_spec sub)
     end.
   (* the model of what Cirq computes: eigen-decomposition sum for EigenGates, closed form otherwise *)
-  Definition gate_model (g : gate) : matrix :=
+  Fixpoint gate_model (g : gate) : matrix :=
     match g with
     | GEig f r rc gg => eig_unitary O (eig_tbl f) r rc gg
+    | GCtrl cdims cvals sub => ctrl_matrix cdims cvals (gate_model sub)
     | _ => gate_spec g
     end.
 End Families.
